@@ -179,5 +179,15 @@ func H04agree() {
 	vAssert(h.CheckIntegrity() == nil, "C04.agree.header-method-accepts")
 	_, _, ierr := DecodeHeaderAndFileID(rd())
 	vAssert(ierr == nil, "C04.agree.headerandfileid-accepts")
+	// the same file followed by more input (the next file of a chain, or a
+	// stray byte), through a reader that knows its length
+	more := append(append([]byte{}, file...), file...)
+	if vBool() {
+		more = append(append([]byte{}, file...), vByte())
+	}
+	_, merr := Decode(bytes.NewReader(more))
+	vAssert(merr == nil, "C04.agree.decode-accepts")
+	vAssert(CheckIntegrity(bytes.NewReader(more), false) == nil, "C04.agree.checkintegrity-accepts-what-decode-accepts")
+	vAssert(CheckIntegrity(bytes.NewBuffer(more), false) == nil, "C04.agree.checkintegrity-accepts-what-decode-accepts")
 	vReached("end")
 }
